@@ -83,6 +83,8 @@ def generate(inv, T):
             ws.append(H.Wrapper(name, T, off, T, nres, '\n'.join(lines), n_iout=1))
             lines2 = lines[:-1] + ['out[0] = a0.Determinant();']
             ws.append(H.Wrapper(name + '_det', T, off, T, 1, '\n'.join(lines2)))
+            lines3 = lines[:-1] + [store_res('a0.Adjugate()', r['res'], T, nres)]
+            ws.append(H.Wrapper(name + '_adj', T, off, T, nres, '\n'.join(lines3)))
         elif r['res'] == 'bool':
             lines.append('iout[0] = %s;' % expr)
             ws.append(H.Wrapper(name, T, off, T, 0, '\n'.join(lines), n_iout=1))
@@ -142,6 +144,16 @@ def one(ctx, T, r, d):
         it = modes.Bit()
         o.syntactic = exp is res.iout[0]
         ctx.decide(o, [it.ev(res.iout[0]) != it.ev(exp)] if exp is not res.iout[0] else [z3.BoolVal(False)], w, inverse_presence_replay(ctx, w, ctx.byname[d['w'] + '_det']))
+        # the quotient step: bit-identical to the library's own Adjugate() divided by its own Determinant() in the numeric
+        # type of the tensor (both are checked against O-tensor on their own) - a detour through a narrower type shows here
+        ra = ctx.result(d['w'] + '_adj')
+        oq = ctx.ob(d['id'] + ' [quotient]', 'inverse-quotient', 'BIT', '%s: when present, every component is exactly Adjugate() component / Determinant() in the tensor\'s numeric type' % d['id'])
+        if ra is None or ra.error or any(t is None for t in ra.out) or any(t is None for t in res.out):
+            oq.reason = ctx.why_missing(d['w'] + '_adj')
+        else:
+            present = mk('icmp', 'i1', 'ne', res.iout[0], tm.ic('i64', 0))
+            expq = [mk('fdiv', T, ra.out[i], rd.out[0]) for i in range(d['n'])]
+            ctx.bit_equal(oq, res.out, expq, w, assumptions=[present], key=oq.oid, replay=quotient_replay(ctx, w, ctx.byname[d['w'] + '_adj'], ctx.byname[d['w'] + '_det']))
         for i in range(d['n']):
             oi = ctx.ob(d['id'] + ' component %d [identity]' % i, 'inverse-identity', 'REAL', '%s component %d: equals adjugate / determinant whenever the determinant is not zero (so Inverse * A = A * Inverse = I)' % (d['id'], i))
             if res.out[i] is None:
@@ -177,6 +189,22 @@ def one(ctx, T, r, d):
             ctx.round_bound(o2, res.out[i], spec_comp(i), w, K, positive=False, mag=spec_comp(i, mag=True), mode='ROUND', out_index=i)
 
 
+def quotient_replay(ctx, w, wadj, wdet):
+    import numpy as np
+
+    def rp(xs):
+        o, io = ctx.unit.call_native(w, xs)
+        if not io[0]:
+            return False, 'inverse absent for these inputs'
+        a, _ = ctx.unit.call_native(wadj, xs)
+        dt, _ = ctx.unit.call_native(wdet, xs)
+        exp = [x / dt[0] for x in a]
+        bad = [i for i in range(len(o)) if not engine.same_float(o[i], exp[i])]
+        return bool(bad), 'inputs=%s Inverse()=%s Adjugate()/Determinant()=%s' % ([core.hexf(x) for x in xs], [core.hexf(x) for x in o], [core.hexf(x) for x in exp])
+    rp.case = {'kind': 'observed', 'impl': w.name}
+    return rp
+
+
 def inverse_presence_replay(ctx, w, wdet):
     def rp(xs):
         o, io = ctx.unit.call_native(w, xs)
@@ -203,8 +231,9 @@ def main():
             names = []
             for d in part:
                 names.append(d['w'])
-                if d['w'] + '_det' in byw:
-                    names.append(d['w'] + '_det')
+                for suffix in ('_det', '_adj'):
+                    if d['w'] + suffix in byw:
+                        names.append(d['w'] + suffix)
             specs.append(engine.UnitSpec('c09_%s_%d' % (T, ci), incs, [byw[x] for x in names], {'T': T, 'obs': part, 'prop': PROP}))
     results = engine.run_units(specs, worker, work)
     engine.collect(rep, results)
